@@ -1,4 +1,5 @@
 import MakoModel.Props.C15
+#print axioms MakoModel.C15.mtimes_whole_seconds
 #print axioms MakoModel.C15.rewrite_iff_due
 #print axioms MakoModel.C15.writer_called_iff_due
 #print axioms MakoModel.C15.path_never_partial
@@ -7,5 +8,5 @@ import MakoModel.Props.C15
 #print axioms MakoModel.C15.concurrent_loader_sees_complete
 #print axioms MakoModel.C15.concurrent_constructs_safe
 #print axioms MakoModel.C15.concurrent_constructs_converge
-#print axioms MakoModel.C15.concurrent_constructs_need_stable_source
+#print axioms MakoModel.C15.concurrent_constructs_need_stable_source_counterexample
 #print axioms MakoModel.C15.verify_directory_bounded
